@@ -7,7 +7,7 @@
 (*  x  : pairs of series of unequal lengths 1..LenX (cross / inter-system)      *)
 (*  j  : pairs of equal length 1..LenJ with lags -2..2 (joint plots/networks)   *)
 EXTENDS Integers, Sequences, FiniteSets, TLC, Json, IOUtils, SequencesExt, Fx
-CONSTANTS LenRP, LenX, LenJ, JStride
+CONSTANTS LenRP, LenX, LenJ, JStride, XFull, XStride
 
 Ser(n) == [1..n -> 0..2]
 Metrics == <<"supremum", "manhattan", "euclidean">>
@@ -43,12 +43,23 @@ RP2 == UNION {{[kind |-> "rp2", pts |-> p, metric |-> Metrics[mi], mode |-> md[1
               : n \in 1..3}
 
 XModes == <<<<"thr", 1, 2>>, <<"thr", 1, 1>>, <<"thr", 3, 2>>, <<"rr", 1, 4>>, <<"rr", 1, 2>>, <<"thr", 2, 1>>>>
-X == UNION {{LET h == HashS(x) + 5 * HashS(y) IN
+\* embedding of the pair: 0 none; otherwise dimension 2 with the delays (taux, tauy) given separately for the two
+\* series of an inter-system network: (1,1), (2,1), (1,2) - whenever both embedded series keep at least one state.
+\* The cross plot takes one delay for both series (ctau).
+XTaus == <<<<1, 1>>, <<2, 1>>, <<1, 2>>>>
+X == UNION {{LET x == pr[1]  y == pr[2]
+                 h == HashS(x) + 5 * HashS(y)
+                 want == (h \div 18) % 4
+                 ok == want > 0 /\ nx - XTaus[Max2(want, 1)][1] >= 1 /\ ny - XTaus[Max2(want, 1)][2] >= 1
+                 taux == IF ok THEN XTaus[want][1] ELSE 1
+                 tauy == IF ok THEN XTaus[want][2] ELSE 1 IN
               [kind |-> "x", x |-> x, y |-> y, metric |-> Metrics[(h % 3) + 1],
                mode |-> XModes[((h \div 3) % 6) + 1][1], pn |-> XModes[((h \div 3) % 6) + 1][2],
                pd |-> XModes[((h \div 3) % 6) + 1][3],
-               emb |-> IF (h \div 18) % 2 = 1 /\ nx >= 2 /\ ny >= 2 THEN 1 ELSE 0]
-             : x \in Ser(nx), y \in Ser(ny)} : nx \in 1..LenX, ny \in 1..LenX}
+               emb |-> IF ok THEN 1 ELSE 0, taux |-> taux, tauy |-> tauy,
+               ctau |-> IF ny - taux >= 1 THEN taux ELSE 1]
+             : pr \in {p \in Ser(nx) \X Ser(ny) : nx + ny <= XFull \/ (HashS(p[1]) + 5 * HashS(p[2])) % XStride = 0}}
+            : nx \in 1..LenX, ny \in 1..LenX}
 
 JPairs(n) == SetToSeq(Ser(n) \X Ser(n))
 J == UNION {{LET pr == JPairs(n)[k]  h == HashS(pr[1]) + 7 * HashS(pr[2]) + lag IN
